@@ -311,6 +311,22 @@ def op_total_lt_default_content(cfg, path, rnd):
         p['content-size-field-type'] = True
 
 
+def op_mandatory_feature_disabled(which):
+    """docs: "You can't disable this feature" (packet total size / content size)"""
+    def f(cfg, path, rnd):
+        d = get(cfg, path)
+        f_ = d.get('$features')
+        if not isinstance(f_, dict):
+            f_ = {}
+            d['$features'] = f_
+        p = f_.get('packet')
+        if not isinstance(p, dict):
+            p = {}
+            f_['packet'] = p
+        p[which] = False
+    return f
+
+
 def op_two_defaults(cfg, path, rnd):
     for d in get(cfg, path)['data-stream-types'].values():
         d['$is-default'] = True
@@ -399,6 +415,8 @@ OPS = [
     ('ert-id-too-small', ['dst'], None, op_three_erts_small_id),
     ('total-size-narrower-than-content-size', ['dst'], None, op_total_lt_content),
     ('total-size-narrower-than-default-content-size', ['dst'], None, op_total_lt_default_content),
+    ('total-size-feature-disabled', ['dst'], None, op_mandatory_feature_disabled('total-size-field-type')),
+    ('content-size-feature-disabled', ['dst'], None, op_mandatory_feature_disabled('content-size-field-type')),
     ('two-default-stream-types', ['tt'], count_ge('data-stream-types', 2), lambda c, p, r: op_two_defaults(c, p, r)),
     ('byte-order-missing', ['tt'], None, lambda c, p, r: [get(c, p).pop(k, None) for k in ('native-byte-order', 'trace-byte-order')] and None),
     ('byte-order-bogus', ['tt'], None, lambda c, p, r: get(c, p).__setitem__(
